@@ -25,6 +25,20 @@
 (*                    (field `lawpow`, default 1, exists only for the       *)
 (*                    negative control: the claim x / c^lawpow with         *)
 (*                    lawpow # 1 must be rejected.)                         *)
+(*                                                                         *)
+(* Composite (lazy) operators: kind = "Tree", field `tree` an operator     *)
+(* tree of Expr.tla over exact leaves (Product of rectangular factors,     *)
+(* BlockDiag / Kronecker of rectangular leaves, scalar multiples, sums).   *)
+(*   CompositeOK      the tree is well formed and Case.A = Expr!Denote(tree)*)
+(*                    (so MoorePenrose / Emit speak about the minimum-norm  *)
+(*                    least-squares solution of the composite's OWN matrix);*)
+(*   ReverseOrderFact for products (field `revlaw`): every factor has full  *)
+(*                    rank and LeastSquares!ReverseOrderLawHolds(factors, b)*)
+(*                    is exactly what the catalog claims - FALSE on the     *)
+(*                    witnesses tall@tall, wide@wide, wide@tall, square@tall*)
+(*                    wide@square: the specification never relies on        *)
+(*                    (BC)^+ = C^+ B^+;                                     *)
+(*   EmitComposite    prints {cid, rev} per product case.                  *)
 (***************************************************************************)
 EXTENDS LeastSquares, PinvCatalog, Json, TLC
 
@@ -78,4 +92,19 @@ ScalingLawOK ==
             ELSE MEq(PinvSolve(MScale(Scales[i], Case.A), Case.b), MScale(QPow(QInv(Scales[i]), LawPow), X))
 Emit == phase = "solved" => PrintT(ToJson([id |-> Case.id, kind |-> Case.kind, A |-> Case.A, b |-> Case.b, x |-> X,
                                             law |-> Len(Scales)]))
+
+\* composite operators (operator trees of Expr.tla)
+EX == INSTANCE Expr
+IsTree == Case.kind = "Tree" /\ "tree" \in DOMAIN Case
+CompositeOK == IsTree => /\ EX!WellFormed(Case.tree)
+                         /\ MEq(EX!Denote(Case.tree), Case.A)
+IsProductTree == IsTree /\ Case.tree.k \in {"Product", "op_matmul"} /\ "revlaw" \in DOMAIN Case
+Factors == [i \in 1..Len(Case.tree.a) |-> EX!Denote(Case.tree.a[i])]
+RevHolds == ReverseOrderLawHolds(Factors, Case.b)
+ReverseOrderFact ==
+    (phase = "solved" /\ IsProductTree) =>
+        /\ \A i \in 1..Len(Factors): FullRank(Factors[i])
+        /\ MEq(MProdSeq(Factors), Case.A)
+        /\ (RevHolds <=> Case.revlaw)
+EmitComposite == (phase = "solved" /\ IsProductTree) => PrintT(ToJson([cid |-> Case.id, rev |-> RevHolds]))
 =============================================================================
